@@ -24,7 +24,8 @@ PROP = {
             "C13_internal": "full (length <= 1000 and usv_list): the unchecked internal-caller encoder equals the checked one and both succeed.",
             "C13_1_refuted": "full, by vm_compute (24 s for the whole witness file; each of encode/decode on the 3857-scalar witness takes 2-4 s in the VM; N, not nat, is used throughout).",
             "C13_2_refuted": "full, proved symbolically for 'a' x (2^32 - 1) ++ \"-a\" (no computation on the 4 GiB list).",
-            "C13_dec_enc_partial": "PARTIAL. Full statements kept as C13_dec_enc_statement and C13_dec_enc_small_statement (Definitions). Proved: (a) encode = Ok p implies p is the unbounded encoding and decode = Ok s' implies s' is the unbounded decoding (C13_safe), hence relative to the premise `s_decode (s_encode s) = Some s` (invertibility of Bootstring over unbounded integers on s - RFC 3492's claim, not proved here) decode(encode s) is s or None, never another string; (b) step (1) C13_vli_partial: the decoder reads the variable-length integer the encoder wrote and lands on i + q*w; (c) step (4) C13_insertions: insertion list + shifting + sort + iterator = direct insertion; (d) C13_small_scope: both round trips computed in the kernel for all 4681 / 2801 sequences of length <= 4 over the class alphabets. GAP: step (2) (the encoder's delta sequence replayed by the decoder's <n,i> walk reconstructs s, over unbounded integers) and the direction `unbounded decoding succeeds without 32-bit overflow => the u32 decoder returns Some` (needs bias <= 215 to exclude weight overflow on a final zero digit, see Proofs notes). Until then the Known_C13 class is complete only by the correspondence/search runs.",
+            "C13_spec_round_trip": "full: s_decode (s_encode s) = Some s for every list of scalar values, over unbounded integers (step (2) of the plan; uses C13_vli_partial and the reading of the decoder state <n,i> as n*(L+1)+i).",
+            "C13_dec_enc_partial": "PARTIAL. Full statements kept as C13_dec_enc_statement and C13_dec_enc_small_statement (Definitions). Proved for every usv_list s with encode s = Some p (p shorter than 2^32): p is the unbounded RFC 3492 encoding, the unbounded decoding of p is s, and the u32 decoder returns Some s or None - never another string, never a panic. GAP (one direction of step (3)): `~ Known_C13 s` (resp. length s <= 3854) implies that none of the decoder's three 32-bit checks fires; this needs the instrumented walk of known_c13 to be tied to the decoder's i (same invariant as C13_spec_round_trip) and bias <= 215 to exclude a weight overflow in front of a final zero digit. Until then completeness of the class Known_C13 rests on the correspondence / search runs and on C13_small_scope (both round trips computed in the kernel for all sequences of length <= 4 over the class alphabets).",
             "C13_enc_dec_partial": "PARTIAL. Full statement kept as C13_enc_dec_statement. Proved: decode p = Ok s and encode s = Ok q imply s = unbounded decoding of p, q = unbounded encoding of s, q ASCII. GAP: uniqueness of the variable-length-integer representation (encode after decode reproduces the digits in lower case) and the <n,i> monotonicity argument.",
         },
     }
@@ -32,6 +33,6 @@ PROP = {
 TEXT = {
   "level": "Machine-checked Coq theorems about an executable Gallina model of idna/src/punycode.rs (u32 arithmetic explicit, both caller kinds, both overflow-check configurations), with the Bootstring constants and digit tables regenerated from the Rust source on every run; the model is tied to the code by a correspondence run of the extracted model against the crate in both cargo profiles.",
   "design_ref": "DESIGN.md section 8 C13, Appendix B.1, section 9 F-C13-1",
-  "note": "Full: ASCII output; no panic and no wrong answer (Some results equal an unbounded-integer transcription of RFC 3492, itself compared with an independent reference by the harness) in both overflow-check configurations; internal (unchecked) encoder = checked encoder up to 1000 scalars; insertion-list representation = direct insertion; variable-length integers decode to what was encoded. Partial: the two round trips are proved only relative to the invertibility of Bootstring over unbounded integers (stated as a premise) and computed in the kernel for all sequences of length <= 4 over the class alphabets; the full statements are kept as Definitions. Known findings: F-C13-1 (decode(encode(U+0080 x 3856 ++ [U+10FE4F])) = None) and F-C13-2 (decode panics on inputs with 2^32 - 1 basic code units), both with machine-checked witnesses and confirmed on the crate.",
+  "note": "Full: ASCII output; no panic and no wrong answer (Some results equal an unbounded-integer transcription of RFC 3492, itself compared with an independent reference by the harness) in both overflow-check configurations; internal (unchecked) encoder = checked encoder up to 1000 scalars; insertion-list representation = direct insertion; variable-length integers decode to what was encoded. Bootstring over unbounded integers is proved invertible (decode after encode). Partial: for the u32 code decode(encode(s)) is proved to be s or None (never another string); that it is not None outside the class Known_C13 is not proved (full statements kept as Definitions; both round trips are computed in the kernel for all sequences of length <= 4 over the class alphabets); encode(decode(p)) is proved to consist of the two unbounded algorithms, not yet to reproduce p. Known findings: F-C13-1 (decode(encode(U+0080 x 3856 ++ [U+10FE4F])) = None) and F-C13-2 (decode panics on inputs with 2^32 - 1 basic code units), both with machine-checked witnesses and confirmed on the crate.",
   "technique": "Coq proof over Gallina model + table translator + extracted-model/implementation correspondence",
  }
